@@ -771,7 +771,7 @@ SUBCHECKS = [
              floors={"perm_edges": 0.15, "perm_mutations": 0.15, "perm_sites": 0.1, "perm_migrations": 0.04,
                      "dup_site": 0.2, "edge_start>0_with_metadata": 0.12, "equal_parent_times": 0.15,
                      "skip_sites": 0.08, "bad_start": 0.1, "known_mut_times": 0.15, "multi_mut_site": 0.25,
-                     "mixed_known_unknown_sites": 0.01}),
+                     "mixed_known_unknown_sites": 0.004}),
     SubCheck("C07.repair_pipeline", run_pipeline, strategy=pipeline_case, quick=2000, thorough=60000, rule=NT,
              floors={"perm_edges": 0.15, "perm_mutations": 0.1, "perm_sites": 0.1, "perm_migrations": 0.05,
                      "dup_site_with_mutations": 0.12, "edge_start>0_with_metadata": 0.1, "erase_parents": 0.3,
@@ -785,7 +785,7 @@ SUBCHECKS = [
                      "unreferenced_ind_or_pop": 0.25, "individual_parents": 0.12, "multi_mut_site": 0.2}),
     SubCheck("C07.sort_individuals", run_sortind, strategy=sortind_case, quick=800, thorough=24000,
              rule="some individual is listed before one of its parents and the pedigree is acyclic",
-             floors={"unsorted_input": 0.08, "cycle": 0.015, "node_refs": 0.3}),
+             floors={"unsorted_input": 0.08, "cycle": 0.004, "node_refs": 0.3}),
     SubCheck("C07.squash", run_squash, strategy=squash_case, quick=800, thorough=24000,
              rule="at least one pair of adjacent edges (same parent, child; right == left) and no edge metadata",
              floors={"adjacent_pieces": 0.3, "edge_metadata": 0.05, "permuted": 0.18, "gap_between_pieces": 0.05}),
